@@ -24,6 +24,8 @@ type cfg struct {
 	headerSource HeaderSource
 
 	msg any
+	// xhdrReq is the request whose X-headers apply when msg itself carries none (binary object header).
+	xhdrReq *requestXHeaderSource
 
 	cnr cid.ID
 	obj oid.ID
@@ -88,6 +90,8 @@ func (h *headerSource) HeadersOfType(typ eacl.FilterHeaderType) ([]eacl.Header, 
 		if h.requestHeaders == nil {
 			if x, ok := h.cfg.msg.(xHeaderSource); ok {
 				h.requestHeaders = requestHeaders(x)
+			} else if h.cfg.xhdrReq != nil {
+				h.requestHeaders = requestHeaders(*h.cfg.xhdrReq)
 			}
 		}
 		return h.requestHeaders, true, nil
